@@ -14,7 +14,7 @@ import (
 func init() {
 	mon.Register(&mon.Prop{
 		ID: "C06", Level: "exploration",
-		Rule: "table clause: all 25 table ids x all 64 codons x {upper, lower, every mixed casing} plus start/stop lists, complete; string clause: per table, random A/C/G/T strings of length 1..3000 in random case, each split at every codon boundary and with 1-2 trailing bases; non-trivial = every (table,codon) pair and every string of >= 2 codons; distinct by hash of (table, input)",
+		Rule:        "table clause: all 25 table ids x all 64 codons x {upper, lower, every mixed casing} plus start/stop lists, complete; string clause: per table, random A/C/G/T strings of length 1..3000 in random case, each split at every codon boundary and with 1-2 trailing bases; non-trivial = every (table,codon) pair and every string of >= 2 codons; distinct by hash of (table, input)",
 		Assumptions: []string{"oracle: NCBI genetic codes transcribed as standard code + per-table differences + explicit initiation/termination lists (termination list = '*' marks of NCBI's sncbieaa line), independent of poly's 64-letter strings"},
 		Shards:      tierShards(16, 16), WatchdogSec: tierSecs(600, 3600),
 		Run: runC06,
